@@ -136,7 +136,8 @@ impl SatSolver for BufferedSatSolver {
         }
         let solving_result = match status {
             Some(true) => {
-                if assignment_line_seen {
+                // a model which value lines are not terminated by a zero may have been cut
+                if assignment_line_seen && assignment_line_end {
                     SolvingResult::Satisfiable(Assignment::new(assignment))
                 } else {
                     SolvingResult::Unknown
